@@ -1,13 +1,495 @@
 package main
 
+// C12 — what the Tie reads from core/collection/timingwheel.go:
+//   * arithmetic: getOffset, getPositionAndCircle, onTick, the constructor's initial tickedPos (generic translator)
+//   * the run loop's handlers as per-branch effect lists (assigned location ↦ value, calls with their arguments):
+//     moveTask, setTask (clamp + rest), removeTask, setTimerPosition, one iteration of the scan loop and of the
+//     drain loop.  The generic translator handles straight-line integer code; c12Rewrite first brings the
+//     handlers into that subset without dropping anything the model depends on (see the rules there).
+//   * the public API: the argument guards as Bool functions, the select tables (channel, direction, sent value,
+//     returned error), Stop, the run loop's dispatch table, the constructor's struct literal.
+//   * statement skeletons (shapeDef) for the order of list/map operations.
+
+import (
+	"fmt"
+	"go/ast"
+	"go/token"
+	"strings"
+)
+
+func c12Ident(name string) *ast.Ident { return &ast.Ident{Name: name} }
+
+func c12CallStmt(name string, args ...ast.Expr) ast.Stmt {
+	return &ast.ExprStmt{X: &ast.CallExpr{Fun: c12Ident(name), Args: args}}
+}
+
+func c12IsIdent(e ast.Expr, name string) bool {
+	id, ok := e.(*ast.Ident)
+	return ok && id.Name == name
+}
+
+// c12Exposed are the integer locals whose value a call depends on through an index or an argument; the
+// rewrite puts `arg.<name> = <name>` in front of such a call so that the value shows up in the effect list.
+var c12Exposed = map[string]bool{"pos": true, "circle": true}
+
+func c12MentionsExposed(n ast.Node) []string {
+	var out []string
+	seen := map[string]bool{}
+	ast.Inspect(n, func(x ast.Node) bool {
+		if _, ok := x.(*ast.FuncLit); ok {
+			return false
+		}
+		if id, ok := x.(*ast.Ident); ok && c12Exposed[id.Name] && !seen[id.Name] {
+			seen[id.Name] = true
+			out = append(out, id.Name)
+		}
+		return true
+	})
+	return out
+}
+
+// c12Arg renders a call argument the generic translator would print as "_" (composite literal, address of
+// one, anything that is not a plain name) as an identifier carrying its source text.
+func (s *source) c12Arg(a ast.Expr) ast.Expr {
+	switch a.(type) {
+	case *ast.Ident, *ast.SelectorExpr:
+		return a
+	}
+	return c12Ident(s.src(a))
+}
+
+// c12Rewrite brings a handler body into the generic translator's subset:
+//
+//	R1  `v, ok := f(args)`            → call f(args); `ok` becomes a free Bool of the translated function
+//	R2  `if init; cond {`             → init; `if cond {`
+//	R3  `continue`                    → `return` (the body of a loop is translated as one iteration)
+//	R4  loop advance (`next := e.Next()`, `e = next`, `e = e.Next()`) → dropped (its order relative to
+//	                                    Remove is tied by the statement skeletons)
+//	R5  `xs = append(xs, lit)`        → call append:xs(<lit source>)
+//	R6  `x := &T{…}` / `x := T{…}`    → call new:x(<literal source>)
+//	R7  `f(func() { body })`          → call f{ ; body ; call }
+//	R8  a call mentioning the integer locals pos / circle is preceded by `arg.pos = pos` (the value appears)
+//	R9  other non-name arguments are printed as their source text
+func (s *source) c12Rewrite(list []ast.Stmt) []ast.Stmt {
+	var out []ast.Stmt
+	for _, st := range list {
+		out = append(out, s.c12RewriteStmt(st)...)
+	}
+	return out
+}
+
+func (s *source) c12RewriteStmt(st ast.Stmt) []ast.Stmt {
+	switch x := st.(type) {
+	case *ast.BranchStmt:
+		if x.Tok == token.CONTINUE {
+			return []ast.Stmt{&ast.ReturnStmt{}}
+		}
+	case *ast.BlockStmt:
+		return s.c12Rewrite(x.List)
+	case *ast.IfStmt:
+		var pre []ast.Stmt
+		if x.Init != nil {
+			pre = s.c12RewriteStmt(x.Init)
+		}
+		n := &ast.IfStmt{Cond: x.Cond, Body: &ast.BlockStmt{List: s.c12Rewrite(x.Body.List)}}
+		switch e := x.Else.(type) {
+		case *ast.BlockStmt:
+			n.Else = &ast.BlockStmt{List: s.c12Rewrite(e.List)}
+		case *ast.IfStmt:
+			r := s.c12RewriteStmt(e)
+			if is, ok := r[len(r)-1].(*ast.IfStmt); ok && len(r) == 1 {
+				n.Else = is
+			} else {
+				n.Else = &ast.BlockStmt{List: r}
+			}
+		}
+		return append(pre, n)
+	case *ast.AssignStmt:
+		if len(x.Lhs) == 1 && len(x.Rhs) == 1 {
+			if c12IsIdent(x.Lhs[0], "e") || s.src(x.Rhs[0]) == "e.Next()" {
+				return nil // R4
+			}
+			if call, ok := x.Rhs[0].(*ast.CallExpr); ok && c12IsIdent(call.Fun, "append") && len(call.Args) >= 2 {
+				var args []ast.Expr
+				for _, a := range call.Args[1:] {
+					args = append(args, c12Ident(s.src(a)))
+				}
+				return []ast.Stmt{c12CallStmt("append:"+s.src(x.Lhs[0]), args...)} // R5
+			}
+			rhs := x.Rhs[0]
+			if u, ok := rhs.(*ast.UnaryExpr); ok && u.Op == token.AND {
+				rhs = u.X
+			}
+			if _, ok := rhs.(*ast.CompositeLit); ok && x.Tok == token.DEFINE {
+				return []ast.Stmt{c12CallStmt("new:"+s.src(x.Lhs[0]), c12Ident(s.src(x.Rhs[0])))} // R6
+			}
+		}
+		if len(x.Lhs) == 2 && len(x.Rhs) == 1 && c12IsIdent(x.Lhs[1], "ok") {
+			if call, ok := x.Rhs[0].(*ast.CallExpr); ok {
+				return s.c12RewriteStmt(&ast.ExprStmt{X: call}) // R1
+			}
+		}
+	case *ast.ExprStmt:
+		call, ok := x.X.(*ast.CallExpr)
+		if !ok {
+			return []ast.Stmt{st}
+		}
+		var out []ast.Stmt
+		for _, name := range c12MentionsExposed(call) {
+			out = append(out, &ast.AssignStmt{
+				Lhs: []ast.Expr{&ast.SelectorExpr{X: c12Ident("arg"), Sel: c12Ident(name)}},
+				Tok: token.ASSIGN,
+				Rhs: []ast.Expr{c12Ident(name)},
+			}) // R8
+		}
+		if len(call.Args) == 1 {
+			if fl, ok := call.Args[0].(*ast.FuncLit); ok {
+				out = append(out, c12CallStmt(s.src(call.Fun)+"{"))
+				out = append(out, s.c12Rewrite(fl.Body.List)...)
+				return append(out, c12CallStmt("}")) // R7
+			}
+		}
+		n := &ast.CallExpr{Fun: call.Fun}
+		for _, a := range call.Args {
+			n.Args = append(n.Args, s.c12Arg(a)) // R9
+		}
+		return append(out, &ast.ExprStmt{X: n})
+	}
+	return []ast.Stmt{st}
+}
+
+// c12Effects translates a (rewritten) statement list into `def leanName … : List (String × Int)`.
+// intParams become explicit Int parameters; every other free name is a parameter in order of first use.
+func (e *emitter) c12Effects(t *translator, leanName, doc, recv string, intParams []string, list []ast.Stmt) {
+	defer func() {
+		if p := recover(); p != nil {
+			te, ok := p.(transErr)
+			if !ok {
+				panic(p)
+			}
+			e.errors = append(e.errors, leanName+": "+te.msg)
+			e.printf("/-- TRANSLATION FAILED: %s -/\ndef %s : Unit := ()\n\n", te.msg, leanName)
+		}
+	}()
+	c := &tctx{t: t, recv: recv, locals: map[string]bool{}, freeSet: map[string]bool{}, boolVars: map[string]bool{}, effects: true}
+	var params []string
+	for _, p := range intParams {
+		c.locals[p] = true
+		params = append(params, "("+leanIdent(p)+" : Int)")
+	}
+	body := c.stmts(list, nil, "  ")
+	for _, f := range c.free {
+		ty := "Int"
+		if c.boolVars[f] {
+			ty = "Bool"
+		}
+		params = append(params, "("+f+" : "+ty+")")
+	}
+	e.printf("/-- %s -/\ndef %s %s : List (String × Int) :=\n%s\n\n", doc, leanName, strings.Join(params, " "), body)
+}
+
+// c12Guard translates a boolean guard into `def leanName … : Bool`; `x == nil` becomes the Bool parameter xNil.
+func (e *emitter) c12Guard(t *translator, s *source, leanName, doc string, intParams []string, cond ast.Expr) {
+	defer func() {
+		if p := recover(); p != nil {
+			te, ok := p.(transErr)
+			if !ok {
+				panic(p)
+			}
+			e.errors = append(e.errors, leanName+": "+te.msg)
+			e.printf("/-- TRANSLATION FAILED: %s -/\ndef %s : Unit := ()\n\n", te.msg, leanName)
+		}
+	}()
+	c := &tctx{t: t, locals: map[string]bool{}, freeSet: map[string]bool{}, boolVars: map[string]bool{}}
+	var params []string
+	for _, p := range intParams {
+		c.locals[p] = true
+		params = append(params, "("+leanIdent(p)+" : Int)")
+	}
+	body := c.expr(c12NilTests(cond), true)
+	for _, f := range c.free {
+		ty := "Int"
+		if c.boolVars[f] {
+			ty = "Bool"
+		}
+		params = append(params, "("+f+" : "+ty+")")
+	}
+	e.printf("/-- %s: `%s` -/\ndef %s %s : Bool :=\n  %s\n\n", doc, s.src(cond), leanName, strings.Join(params, " "), body)
+}
+
+// c12NilTests rewrites `x == nil` to the identifier xNil and `x != nil` to !xNil.
+func c12NilTests(e ast.Expr) ast.Expr {
+	switch x := e.(type) {
+	case *ast.ParenExpr:
+		return &ast.ParenExpr{X: c12NilTests(x.X)}
+	case *ast.UnaryExpr:
+		return &ast.UnaryExpr{Op: x.Op, X: c12NilTests(x.X)}
+	case *ast.BinaryExpr:
+		if (x.Op == token.EQL || x.Op == token.NEQ) && c12IsIdent(x.Y, "nil") {
+			if id, ok := x.X.(*ast.Ident); ok {
+				v := c12Ident(id.Name + "Nil")
+				if x.Op == token.NEQ {
+					return &ast.UnaryExpr{Op: token.NOT, X: v}
+				}
+				return v
+			}
+		}
+		return &ast.BinaryExpr{X: c12NilTests(x.X), Op: x.Op, Y: c12NilTests(x.Y)}
+	}
+	return e
+}
+
+func (s *source) c12Results(r *ast.ReturnStmt) string {
+	var parts []string
+	for _, x := range r.Results {
+		parts = append(parts, s.src(x))
+	}
+	return strings.TrimSpace("return " + strings.Join(parts, ", "))
+}
+
+// c12Flat renders a statement list as one line per simple statement; `if GUARD` hides the condition
+// (tied separately as a Bool function), select and for keep their structure.
+func (s *source) c12Flat(list []ast.Stmt, out *[]string) {
+	for _, st := range list {
+		switch x := st.(type) {
+		case *ast.IfStmt:
+			*out = append(*out, "if GUARD {")
+			s.c12Flat(x.Body.List, out)
+			*out = append(*out, "}")
+			if x.Else != nil {
+				*out = append(*out, "else " + s.src(x.Else))
+			}
+		case *ast.SelectStmt:
+			*out = append(*out, "select {")
+			for _, c := range x.Body.List {
+				cc := c.(*ast.CommClause)
+				if cc.Comm == nil {
+					*out = append(*out, "default:")
+				} else {
+					*out = append(*out, "case "+s.src(cc.Comm)+":")
+				}
+				s.c12Flat(cc.Body, out)
+			}
+			*out = append(*out, "}")
+		case *ast.ForStmt:
+			hdr := "for"
+			if x.Init != nil || x.Cond != nil || x.Post != nil {
+				hdr += " " + c12Src(s, x.Init) + "; " + c12Src(s, x.Cond) + "; " + c12Src(s, x.Post)
+			}
+			*out = append(*out, hdr+" {")
+			s.c12Flat(x.Body.List, out)
+			*out = append(*out, "}")
+		case *ast.ReturnStmt:
+			*out = append(*out, s.c12Results(x))
+		default:
+			*out = append(*out, s.src(st))
+		}
+	}
+}
+
+func c12Src(s *source, n ast.Node) string {
+	switch x := n.(type) {
+	case nil:
+		return ""
+	case ast.Stmt:
+		if x == nil {
+			return ""
+		}
+	case ast.Expr:
+		if x == nil {
+			return ""
+		}
+	}
+	return s.src(n)
+}
+
+func (e *emitter) c12FlatDef(s *source, rel, goName, leanName string) *ast.FuncDecl {
+	fd := s.findFunc(rel, goName)
+	if fd == nil {
+		e.errors = append(e.errors, "function "+goName+" not found in "+rel)
+		e.stringList(leanName, "MISSING: "+goName+" in "+rel, []string{"MISSING"})
+		return nil
+	}
+	var out []string
+	s.c12Flat(fd.Body.List, &out)
+	e.stringList(leanName, "statements of `"+goName+"` in "+rel+" (guards hidden, tied as Bool functions)", out)
+	return fd
+}
+
+func c12FirstIf(fd *ast.FuncDecl) *ast.IfStmt {
+	for _, st := range fd.Body.List {
+		if is, ok := st.(*ast.IfStmt); ok {
+			return is
+		}
+	}
+	return nil
+}
+
+func c12InnerLoop(fd *ast.FuncDecl) *ast.ForStmt {
+	var found *ast.ForStmt
+	ast.Inspect(fd.Body, func(n ast.Node) bool {
+		if f, ok := n.(*ast.ForStmt); ok {
+			found = f // the last (innermost in source order) for statement
+		}
+		return true
+	})
+	return found
+}
+
 func init() {
 	register("C12", func(s *source, e *emitter) {
 		const f = "core/collection/timingwheel.go"
 		t := &translator{registry: map[string]*transFunc{}, consts: map[string]string{}}
+		e.constDef(s, f, "drainWorkers", "drainWorkers")
 		e.translated(t, s, f, "TimingWheel.getOffset", "getOffset", false, "")
 		e.translated(t, s, f, "TimingWheel.getPositionAndCircle", "getPositionAndCircle", false, "")
-		// the case split of moveTask, from the position computation on
+		// the case split of moveTask, from the position computation on (round 1 obligation, kept)
 		e.translated(t, s, f, "TimingWheel.moveTask", "moveTaskTail", true, "pos, circle := tw.getPositionAndCircle")
+		e.translated(t, s, f, "TimingWheel.onTick", "onTickEff", true, "")
+
+		need := func(name string) *ast.FuncDecl {
+			fd := s.findFunc(f, name)
+			if fd == nil {
+				e.errors = append(e.errors, "function "+name+" not found in "+f)
+			}
+			return fd
+		}
+		recvOf := func(fd *ast.FuncDecl) string {
+			if fd.Recv != nil && len(fd.Recv.List) == 1 && len(fd.Recv.List[0].Names) == 1 {
+				return fd.Recv.List[0].Names[0].Name
+			}
+			return ""
+		}
+		// handlers of the run loop as effect lists
+		if fd := need("TimingWheel.moveTask"); fd != nil {
+			e.c12Effects(t, "moveTaskEff", "every statement of `moveTask` (rewritten by c12Rewrite)", recvOf(fd), nil, s.c12Rewrite(fd.Body.List))
+		}
+		if fd := need("TimingWheel.setTask"); fd != nil && len(fd.Body.List) >= 2 {
+			e.c12Effects(t, "setTaskClamp", "first statement of `setTask`: the clamp of a delay below one interval", recvOf(fd), nil, s.c12Rewrite(fd.Body.List[:1]))
+			e.c12Effects(t, "setTaskEff", "`setTask` after the clamp (task.delay is the clamped delay)", recvOf(fd), nil, s.c12Rewrite(fd.Body.List[1:]))
+		}
+		if fd := need("TimingWheel.removeTask"); fd != nil {
+			e.c12Effects(t, "removeTaskEff", "every statement of `removeTask`", recvOf(fd), nil, s.c12Rewrite(fd.Body.List))
+		}
+		if fd := need("TimingWheel.setTimerPosition"); fd != nil {
+			e.c12Effects(t, "setTimerPositionEff", "every statement of `setTimerPosition`", recvOf(fd), []string{"pos"}, s.c12Rewrite(fd.Body.List))
+		}
+		if fd := need("TimingWheel.scanAndRunTasks"); fd != nil {
+			if loop := c12InnerLoop(fd); loop != nil {
+				e.c12Effects(t, "scanEntryEff", "one iteration of the loop of `scanAndRunTasks` (what happens to one entry of the scanned slot)", recvOf(fd), nil, s.c12Rewrite(loop.Body.List))
+				e.stringList("scanLoopHeader", "loop header of `scanAndRunTasks`", []string{c12Src(s, loop.Init), c12Src(s, loop.Cond), c12Src(s, loop.Post)})
+			} else {
+				e.errors = append(e.errors, "scanAndRunTasks: loop not found")
+			}
+		}
+		if fd := need("TimingWheel.drainAll"); fd != nil {
+			if loop := c12InnerLoop(fd); loop != nil {
+				e.c12Effects(t, "drainEntryEff", "one iteration of the inner loop of `drainAll`", recvOf(fd), nil, s.c12Rewrite(loop.Body.List))
+				e.stringList("drainLoopHeader", "inner loop header of `drainAll`", []string{c12Src(s, loop.Init), c12Src(s, loop.Cond), c12Src(s, loop.Post)})
+			} else {
+				e.errors = append(e.errors, "drainAll: loop not found")
+			}
+		}
+		// the slot onTick scans
+		if fd := need("TimingWheel.onTick"); fd != nil {
+			var out []string
+			s.c12Flat(fd.Body.List, &out)
+			e.stringList("onTickStmts", "statements of `onTick`", out)
+		}
+		// public API: guards as Bool functions, statement tables
+		for _, m := range []struct{ goName, lean string }{
+			{"TimingWheel.SetTimer", "setTimer"}, {"TimingWheel.MoveTimer", "moveTimer"},
+			{"TimingWheel.RemoveTimer", "removeTimer"}, {"TimingWheel.Drain", "drain"}, {"TimingWheel.Stop", "stop"},
+			{"TimingWheel.run", "runLoop"}, {"TimingWheel.initSlots", "initSlots"}, {"TimingWheel.runTasks", "runTasks"},
+		} {
+			fd := e.c12FlatDef(s, f, m.goName, m.lean+"Stmts")
+			if fd == nil {
+				continue
+			}
+			if is := c12FirstIf(fd); is != nil && strings.HasSuffix(m.goName, "Timer") {
+				e.c12Guard(t, s, m.lean+"Guard", "argument guard of `"+m.goName+"`", []string{"delay"}, is.Cond)
+			} else if is != nil && m.lean == "runTasks" {
+				e.c12Guard(t, s, m.lean+"Guard", "early return of `"+m.goName+"`", nil, is.Cond)
+			}
+		}
+		// constructors
+		if fd := e.c12FlatDef(s, f, "NewTimingWheel", "newTimingWheelStmts"); fd != nil {
+			if is := c12FirstIf(fd); is != nil {
+				e.c12Guard(t, s, "newTimingWheelGuard", "argument guard of `NewTimingWheel`", []string{"interval", "numSlots"}, is.Cond)
+			} else {
+				e.errors = append(e.errors, "NewTimingWheel: no guard")
+			}
+		}
+		if fd := need("NewTimingWheelWithTicker"); fd != nil {
+			var fields, rest []string
+			var tickedPos ast.Expr
+			for i, st := range fd.Body.List {
+				if as, ok := st.(*ast.AssignStmt); ok && i == 0 && len(as.Rhs) == 1 {
+					rhs := as.Rhs[0]
+					if u, ok := rhs.(*ast.UnaryExpr); ok {
+						rhs = u.X
+					}
+					if cl, ok := rhs.(*ast.CompositeLit); ok {
+						for _, el := range cl.Elts {
+							if kv, ok := el.(*ast.KeyValueExpr); ok {
+								if c12IsIdent(kv.Key, "tickedPos") {
+									tickedPos = kv.Value
+									fields = append(fields, "tickedPos: INIT")
+								} else {
+									fields = append(fields, s.src(kv.Key)+": "+s.src(kv.Value))
+								}
+							}
+						}
+						amp := ""
+						if _, ok := as.Rhs[0].(*ast.UnaryExpr); ok {
+							amp = "&"
+						}
+						rest = append(rest, s.src(as.Lhs[0])+" "+as.Tok.String()+" "+amp+s.src(cl.Type)+"{…}")
+						continue
+					}
+				}
+				var tmp []string
+				s.c12Flat([]ast.Stmt{st}, &tmp)
+				rest = append(rest, tmp...)
+			}
+			e.stringList("ctorFields", "fields of the struct literal of `NewTimingWheelWithTicker` (tickedPos tied as a function)", fields)
+			e.stringList("ctorStmts", "statements of `NewTimingWheelWithTicker`", rest)
+			if tickedPos != nil {
+				func() {
+					defer func() {
+						if p := recover(); p != nil {
+							e.errors = append(e.errors, fmt.Sprint("initTickedPos: ", p))
+							e.printf("def initTickedPos : Unit := ()\n\n")
+						}
+					}()
+					c := &tctx{t: t, locals: map[string]bool{"numSlots": true}, freeSet: map[string]bool{}, boolVars: map[string]bool{}}
+					body := c.expr(tickedPos, false)
+					if len(c.free) > 0 {
+						failf("initial tickedPos depends on %v", c.free)
+					}
+					e.printf("/-- initial `tickedPos` in `NewTimingWheelWithTicker`: `%s` -/\ndef initTickedPos (numSlots : Int) : Int :=\n  %s\n\n", s.src(tickedPos), body)
+				}()
+			} else {
+				e.errors = append(e.errors, "NewTimingWheelWithTicker: tickedPos field not found")
+			}
+		}
+		// numeric conversions anywhere in the file (the generic translator reads every conversion as the identity,
+		// so a narrowing one must not appear unnoticed)
+		if file := s.file(f); file != nil {
+			convs := []string{}
+			ast.Inspect(file, func(n ast.Node) bool {
+				if c, ok := n.(*ast.CallExpr); ok && len(c.Args) == 1 {
+					switch s.src(c.Fun) {
+					case "int", "int8", "int16", "int32", "int64", "uint", "uint8", "uint16", "uint32", "uint64",
+						"uintptr", "float32", "float64", "time.Duration", "byte", "rune":
+						convs = append(convs, s.src(c))
+					}
+				}
+				return true
+			})
+			e.stringList("conversions", "numeric conversions in "+f, convs)
+		}
+		// statement skeletons (order of list / map operations)
 		e.shapeDef(s, f, "TimingWheel.scanAndRunTasks", "scanShape")
 		e.shapeDef(s, f, "TimingWheel.drainAll", "drainShape")
 		e.shapeDef(s, f, "TimingWheel.removeTask", "removeShape")
